@@ -196,7 +196,7 @@ Section Check.
     match ri_of, ci_of with Some ri, Some ci => f ri ci | _, _ => false end.
 End Check.
 
-(* ---- renumber (checked when it is the last operation of the history) ------ *)
+(* ---- renumber (checked on the snapshot taken right after the operation) ------ *)
 Definition renum_b (S : snapshot) (o : op) : bool :=
   match o with
   | OpRenum source target override skey kempty =>
@@ -216,8 +216,6 @@ Definition renum_b (S : snapshot) (o : op) : bool :=
       end
   | _ => true
   end.
-
-Definition last_op (l : list op) : option op := match rev l with o :: _ => Some o | [] => None end.
 
 (* ---- the per-case code ------------------------------------------------------ *)
 Definition snap_bits (K : keys) (S : snapshot) (q : queries) : list bool :=
@@ -243,10 +241,11 @@ Definition wl_case_code (c : wl_case) : nat :=
                           [true; list_eqb (pair_eqb Z.eqb cl_eqb) (s_data s0) (keep_rows (k_data c));
                            true; true; true; true; true; true]
             | None => all_true end in
-  let b1 := match k_snap0 c, k_snap1 c with
-            | Some _, Some s1 =>
-                and_bits (snap_bits K s1 (k_q1 c))
-                  [true; true; true; true; true;
-                   match last_op (k_ops c) with Some o => renum_b s1 o | None => true end; true; true]
-            | _, _ => all_true end in
-  (bit 0 (corr_ok c) + bits_from 1 (and_bits b0 b1))%nat.
+  let bs := fold_left (fun acc st =>
+              match st with
+              | (o, q, Some s1) =>
+                  and_bits acc (and_bits (snap_bits K s1 q)
+                                         [true; true; true; true; true; renum_b s1 o; true; true])
+              | (_, _, None) => acc
+              end) (k_steps c) b0 in
+  (bit 0 (corr_ok c) + bits_from 1 bs)%nat.
